@@ -163,6 +163,8 @@ def gen_fops(rng, kb, roots, n, nconst=3, model_level=0.4, data_ops=0.15):
                 src = rng.choice(nonleaf)
             t = rng.choice([3, 4, 5, 5])
             ops.append([5, src, rng.choice([1, 2, 3, 12])] if t == 5 else [t, src])
+    if data_ops >= 0.3 and rng.random() < 0.4:
+        ops += [[7], [5, -1, 12], [7]]     # reset / infer / reset: inferred bounds must not turn into data
     return ops
 
 
